@@ -11,14 +11,17 @@ CLAIM = ("ENUConverter (exact-real semantics, symbolic anchor latitude/longitude
 BOUNDS = dict(quick="anchor |lat| <= 85 deg, any lon, h in [-500, 9000]; local points within 1e5 m / 1e4 m", thorough="same")
 ASSUMPTIONS = ["sin/cos are replaced by unit-circle pairs of the angle atoms (exact); sqrt by its defining relation",
                "frame/anchor entries use a symbolic ellipsoid (a within 0.1% of 6378137, e^2 in [0, 0.00689]); the isometry/history entries use GRS80 as compiled"]
-OUTSIDE = ["1 mm accuracy in IEEE arithmetic", "toWGS84 of local points (that is C01's inverse)"]
+OUTSIDE = ["1 mm accuracy in IEEE arithmetic", "toWGS84 of local points other than those on the anchor's vertical (that is C01's inverse)"]
 
 def entries(tier):
-    return [Entry("c02_frame", ad=("lat", "lon")), Entry("c02_anchor_points"), Entry("c02_isometry"), Entry("c02_history")]
+    return [Entry("c02_frame", ad=("lat", "lon")), Entry("c02_anchor_points"), Entry("c02_isometry"), Entry("c02_history"),
+            Entry("c02_geodetic_inverse", summarize_loops=True)]
 
 def tv_vectors(tier):
     import math
     out = []
+    for la, lo, hh, dd in ((45.78, 3.08, 365.0, 12.0), (78.0, 15.0, 120.0, 50.0), (-82.5, -120.0, 2800.0, -100.0), (0.0, 179.9, 0.0, 9000.0), (-69.9, 10.0, -400.0, 3.0), (84.9, -60.0, 8000.0, 1000.0)):
+        out.append(("c02_geodetic_inverse", {}, dict(lat=math.radians(la), lon=math.radians(lo), h=hh, dh=dd, a=6378137.0, e2=0.00669438002290)))
     a = dict(lat=math.radians(45.78), lon=math.radians(3.08), h=365.0, a=6378137.0, e2=0.00669438002290)
     out.append(("c02_anchor_points", {}, dict(a, dh=12.5)))
     out.append(("c02_isometry", {}, dict(a, px=10.0, py=-20.0, pz=3.0, qx=-100.0, qy=50.0, qz=1.0, ex=4197000.0, ey=226000.0, ez=4781000.0)))
